@@ -10,6 +10,7 @@ import (
 )
 
 func (g *Gen) blockCase(what string, v *View, env *common.BeaconBlockEnvelope) string {
+	what += g.blockTag
 	f := NewFacts(v)
 	sp := v.W.Spec
 	f.BlockSlotDomains(env.Slot)
@@ -27,6 +28,11 @@ func (g *Gen) blockCase(what string, v *View, env *common.BeaconBlockEnvelope) s
 		bytesN(env.ForkDigest[:]), f.Sig(env.Signature))
 	js := map[string]interface{}{"slot": uint64(env.Slot), "proposer_index": uint64(env.ProposerIndex), "parent_root": env.ParentRoot.String(), "block_root": env.BlockRoot.String(),
 		"fork_digest": env.ForkDigest.String()}
+	if p := v.W.Nodes[env.ParentRoot]; p != nil {
+		js["parent"] = nodeName(p)
+		js["parent_epoch"] = uint64(sp.SlotToEpoch(p.Slot))
+		js["block_epoch"] = uint64(sp.SlotToEpoch(env.Slot))
+	}
 	return g.Emit("block", what, v, f, msg, js, func() gossipval.GossipValidatorResult { return gossipval.ValidateBeaconBlock(bg, env, v) })
 }
 
@@ -43,9 +49,20 @@ func (w *World) resign(env *common.BeaconBlockEnvelope, mod func(e *common.Beaco
 }
 
 func (g *Gen) genBlocks(sc *Scenario) {
+	g.genBlocksOf(sc, append(append(append([]*Node{}, sc.Main[1:]...), sc.Side...), sc.Side2...))
+}
+
+// genBlocksOf: the beacon_block cases for the delivery of each of the given blocks of the scenario.
+func (g *Gen) genBlocksOf(sc *Scenario, all []*Node) {
 	w := sc.W
-	all := append(append(append([]*Node{}, sc.Main[1:]...), sc.Side...), sc.Side2...)
 	for bi, n := range all {
+		// a parent two or more epochs back (a whole epoch without blocks in between) is a class of its own
+		tag := ""
+		if eb := w.epochsBack(n); eb >= 2 {
+			tag = fmt.Sprintf("[parent-%d-epochs-back]", eb)
+			g.E.Extra[fmt.Sprintf("x_blocks_with_parent_%d_epochs_back", eb)] = extraInt(g.E.Extra[fmt.Sprintf("x_blocks_with_parent_%d_epochs_back", eb)]) + 1
+		}
+		g.blockTag = tag
 		// the node has seen everything except this block and what builds on it
 		v := NewView(w, n.Parent, 0)
 		for _, x := range w.subtree(n) {
@@ -160,7 +177,21 @@ func (g *Gen) genBlocks(sc *Scenario) {
 				if tslot != n.Parent.Slot {
 					g.blockCase("advanced-context-unavailable", vt, env)
 				}
+				// the parent carried to the first epoch start after it (an epoch that is NOT the block's) is not asked for
+				if mid, _ := w.Spec.EpochStartSlot(w.Spec.SlotToEpoch(n.Parent.Slot) + 1); mid != tslot {
+					vt = v.Clone()
+					vt.EpcFail[entryKey(n.Parent.Root, mid)] = true
+					g.blockCase("intermediate-context-unavailable", vt, env)
+				}
 			}
 		}
 	}
+	g.blockTag = ""
+}
+
+func extraInt(x interface{}) int {
+	if n, ok := x.(int); ok {
+		return n
+	}
+	return 0
 }
